@@ -13,11 +13,16 @@
 EXTENDS Integers, Sequences, FiniteSets, TLC
 
 \* ---- parameter shapes (each is concretised by harness/src/bin/c15.rs: fn concretise)
-OpenOkArgs  == {"ok", "ok_sort", "ok_nocollect", "ok_onepass", "ok_plugins", "ok_zip", "ok_huge", "ok_huge_onepass"}
+OpenOkArgs  == {"ok", "ok_sort", "ok_nocollect", "ok_onepass", "ok_plugins", "ok_zip", "ok_huge", "ok_huge_onepass",
+                "zip_glob_all", "zip_glob_some"}
+\* archive opens whose extraction (asynchronous, after the reply) finds nothing: inner glob without match, archive
+\* without DLT file, file named like an archive that is none.  The statement fixes no polarity for the open itself
+\* (today ok:, the code carries a todo to report an error) - but every later command must be answered.
+OpenArchiveEmptyArgs == {"zip_glob_none", "zip_nodlt", "zip_nodlt_glob", "fakezip"}
 HugeOpenArgs == {"ok_huge", "ok_huge_onepass"}     \* a log of > 512 Ki messages (more than the bounded channels hold); scripted sessions only
 OnePassOpenArgs == {"ok_onepass", "ok_huge_onepass"}
 OpenBadArgs == {"noarg", "badjson", "nofiles", "emptyfiles", "fileswrongtype", "filesnonstring", "missingfile",
-                "nodlt", "badcollect", "pluginswrongtype", "pluginnotobj"}
+                "nodlt", "badcollect", "pluginswrongtype", "pluginnotobj", "nonarchive_bang", "missingzip_bang"}
 StreamOkArgs  == {"ok", "ok_filt", "ok_text", "ok_onepass", "ok_defaults", "ok_emptywin"}
 StreamBadArgs == {"noarg", "badjson", "badwindow", "windowwrongtype", "filterswrongtype", "badfilter"}
 ChangeOkArgs  == {"ok", "ok_empty", "ok_garbage", "ok_beyond"}
@@ -45,7 +50,8 @@ Both == {"ok", "err"}
    One-pass streams "support no window changes, no search" (StreamContext) and need "no msgs skipped yet" (todo in
    remote.rs): where the code answers ok: today and a repair would answer err:, both are allowed.               *)
 Pol(verb, arg, tk, file, plug, res, tlive, top) ==
-  CASE verb = "open" -> IF file # "none" THEN {"err"} ELSE IF arg \in OpenOkArgs THEN {"ok"} ELSE {"err"}
+  CASE verb = "open" -> IF file # "none" THEN {"err"} ELSE IF arg \in OpenOkArgs THEN {"ok"}
+                        ELSE IF arg \in OpenArchiveEmptyArgs THEN Both ELSE {"err"}
     [] verb \in {"close", "pause", "resume"} -> IF file # "none" THEN {"ok"} ELSE {"err"}
     [] verb \in {"stream", "query"} ->
          IF file \in {"none", "nocollect"} \/ arg \notin StreamOkArgs THEN {"err"}
